@@ -2,6 +2,7 @@ package harness
 
 import (
 	"fmt"
+	"sort"
 
 	"verif/simrt"
 )
@@ -104,6 +105,66 @@ func (g *gen) dirPrefix() string {
 		opts = append(opts, "../ext/", "/abs/", "/mnt/")
 	}
 	return opts[g.n(len(opts))]
+}
+
+// AddTagArgs lets some commands use {t:port.key} placeholders: for a process
+// every task of which receives, on one of its (not joined) in-ports, an item
+// that carries a tag with that key - attached by a tagging component on the
+// route of that port, or inherited by the task that produced the item - the
+// value is passed to the command and enters the result.
+func AddTagArgs(t *simrt.Tape, w *WF) {
+	ex := Eval(w)
+	for i := range w.Nodes {
+		n := &w.Nodes[i]
+		if n.Kind != KProc || n.Custom != 0 || len(n.Ins) == 0 {
+			continue
+		}
+		var common map[string]bool
+		cnt := 0
+		for _, tk := range ex.Tasks {
+			if tk.Node != i {
+				continue
+			}
+			cnt++
+			cur := map[string]bool{}
+			for _, in := range n.Ins {
+				if in.Join {
+					continue
+				}
+				it := tk.Ins[in.Name]
+				for k, v := range it.Tags {
+					if v != "" {
+						cur[in.Name+"."+k] = true
+					}
+				}
+				if it.Lin != nil {
+					for k, v := range it.Lin.Tags {
+						if v != "" {
+							cur[in.Name+"."+k] = true
+						}
+					}
+				}
+			}
+			if common == nil {
+				common = cur
+			} else {
+				for k := range common {
+					if !cur[k] {
+						delete(common, k)
+					}
+				}
+			}
+		}
+		if cnt == 0 || len(common) == 0 || t.Choose(simrt.StGen, 2, 0) != 1 {
+			continue
+		}
+		var keys []string
+		for k := range common {
+			keys = append(keys, k)
+		}
+		sort.Strings(keys)
+		n.TagArgs = []string{keys[t.Choose(simrt.StGen, len(keys), 0)]}
+	}
 }
 
 func Generate(t *simrt.Tape, prof Profile) *WF {
